@@ -709,9 +709,9 @@ theorem tuple_fast_ok (items : List TraitType) (v w : Val)
         by_cases hb : Val.beqL ws vs = true
         · simp [hb] at h; subst h
           have := (Val.beqL_iff ws vs).mp hb
-          exact ⟨sub, vs, sub, vs, rfl, rfl, hl, this ▸ rfl⟩
+          exact ⟨sub, vs, sub, vs, rfl, rfl, hl, this ▸ hr⟩
         · simp [hb] at h; subst h
-          exact ⟨sub, vs, false, ws, rfl, rfl, hl, rfl⟩
+          exact ⟨sub, vs, false, ws, rfl, rfl, hl, hr⟩
     · simp [hl] at h
   · simp [tupleCheckWith] at h
 
@@ -800,5 +800,202 @@ theorem soundP_union (alts : List TraitType) (hQ : SoundQ E alts) : SoundP E (.u
       (by simpa [ctraitValidate, ctraitValidateWith, descOf, hasPy] using h)
   · intro hc _ v w h
     exact hpy v w (by simpa [TraitType.soundClean] using hc) h
+
+
+theorem pyEq_none_yes (v : Val) (h : Val.pyEq Val.none v = .yes) : v = Val.none := by
+  rcases v with a | ⟨sub, vs⟩ | vs
+  · cases a <;> simp_all [Val.pyEq, Atom.pyEq, Atom.isNp, Atom.num, Atom.exactInt, Atom.asNpDouble]
+  · simp [Val.pyEq, Atom.isNp] at h
+  · simp [Val.pyEq, Atom.isNp] at h
+
+theorem seqContains_none_yes (v : Val) (h : seqContains [Val.none] v = .yes) : v = Val.none := by
+  simp only [seqContains] at h
+  cases hp : Val.pyEq Val.none v with
+  | yes => exact pyEq_none_yes v hp
+  | no => simp [hp] at h
+  | raises e => simp [hp] at h
+
+theorem pySel_true_all_none (ts : List TraitType) (v : Val) (h : ∀ t ∈ ts, descOf E t = none) :
+    pySel E true ts v = .traitError := by
+  induction ts with
+  | nil => simp [pySel]
+  | cons t ts ih =>
+    have := h t (by simp)
+    simp [pySel, this, ih (fun t' ht' => h t' (by simp [ht']))]
+
+theorem flatFast_nil_all_none (hE : CastIdem E) (ts : List TraitType) (h : flatFast E ts = []) :
+    ∀ t ∈ ts, descOf E t = none := by
+  induction ts with
+  | nil => simp
+  | cons t ts ih =>
+    rw [flatFast_cons, List.append_eq_nil_iff] at h
+    intro t' ht'
+    rcases List.mem_cons.mp ht' with rfl | hm
+    · cases hd : descOf E t' with
+      | none => rfl
+      | some d =>
+        simp only [hd] at h
+        rcases (agreeP_all E hE t').1 d hd with ha | ⟨ds, rfl, _, hne⟩
+        · cases d <;> simp [Desc.isAlt] at ha <;> simp [Desc.entries] at h
+        · simp [Desc.entries] at h; exact absurd h.1 hne
+    · exact ih h.2 t' hm
+
+/-- Either / TraitCompound, given the list facts.  `none` is the `None` member of
+Either(…, None) (`wn`); TraitCompound has none. -/
+theorem soundP_compound (hE : EnvOK E) (alts : List TraitType) (wn : Bool) (t : TraitType)
+    (hQ : SoundQ E alts)
+    (hsc : t.soundClean = soundCleanL alts) (hpc : t.pyClean = pyCleanL alts)
+    (hpy : ∀ v, pyValidate E t v =
+      match pySel E true alts v with
+      | .traitError =>
+        match (if wn then pyEnumValidate [Val.none] v else Res.traitError) with
+        | .traitError => pySel E false alts v
+        | r => r
+      | r => r)
+    (hdesc : ∀ d, descOf E t = some d →
+      d = .complex (flatFast E alts ++ ((if wn then [Desc.enum [Val.none]] else []) ++
+        (if anySlow E alts then [Desc.slow (fun v => pySel E false alts v)] else []))))
+    (hnone : descOf E t = none → wn = false ∧ flatFast E alts = [])
+    (hhp : hasPy t = true)
+    (hdom : ∀ w, inDomain E t w = (inDomainAny E alts w || (wn && w.isNone)))
+    (hconv : ∀ v w, Conv E t v w ↔ (ConvAny E alts v w ∨ (wn = true ∧ w = v))) :
+    SoundP E t := by
+  obtain ⟨q1, q2, q3, _, _⟩ := hQ
+  have lift : ∀ v w, (∃ t' ∈ alts, Good E t' v w) → Good E t v w := by
+    rintro v w ⟨t', hm, hg⟩
+    obtain ⟨h1, h2⟩ := good_any_of_mem E alts t' v w hm hg
+    exact ⟨by simp [hdom, h1], (hconv v w).mpr (Or.inl h2)⟩
+  have hnoneGood : ∀ v w, wn = true → seqContains [Val.none] v = .yes → w = v → Good E t v w := by
+    intro v w hw hs hwv
+    have := seqContains_none_yes v hs
+    subst hwv; subst this
+    exact ⟨by simp [hdom, hw, Val.isNone], (hconv _ _).mpr (Or.inr ⟨hw, rfl⟩)⟩
+  have p1 : t.soundClean = true → ∀ d v w x, descOf E t = some d → x ∈ d.entries →
+      altAlone E x v = .ok w → Good E t v w := by
+    intro hc d v w x hd hx hok
+    rw [hsc] at hc
+    rw [hdesc d hd] at hx
+    simp only [Desc.entries, List.mem_append] at hx
+    rcases hx with hx | hx | hx
+    · exact lift v w (q1 hc v w x hx hok)
+    · cases wn with
+      | false => simp at hx
+      | true =>
+        simp at hx; subst hx
+        simp only [altAlone] at hok
+        obtain ⟨h1, h2⟩ := fast_enum_ok E _ v w hok
+        exact hnoneGood v w rfl h1 h2
+    · by_cases ha : anySlow E alts = true
+      · simp [ha] at hx; subst hx
+        simp only [altAlone] at hok
+        exact lift v w (q2 hc v w hok)
+      · simp [ha] at hx
+  have p3' : t.soundClean = true → ∀ v w, pySel E true alts v = .traitError →
+      pyValidate E t v = .ok w → Good E t v w := by
+    intro hc v w hsel h
+    rw [hsc] at hc
+    rw [hpy v, hsel] at h
+    simp only at h
+    cases wn with
+    | false => simp at h; exact lift v w (q2 hc v w h)
+    | true =>
+      simp only [if_true, pyEnumValidate] at h
+      cases hs : seqContains [Val.none] v with
+      | yes => simp [hs] at h; exact hnoneGood v w rfl hs h.symm
+      | no => simp [hs] at h; exact lift v w (q2 hc v w h)
+      | raises e => simp [hs] at h
+  refine ⟨p1, ?_, ?_⟩
+  · intro hc v w h
+    cases hd : descOf E t with
+    | none =>
+      obtain ⟨hw, hf⟩ := hnone hd
+      rw [ctraitValidate_of_none E t v hd hhp] at h
+      exact p3' hc v w (pySel_true_all_none E alts v (flatFast_nil_all_none E hE.castIdem alts hf)) h
+    | some d =>
+      have hshape := (agreeP_all E hE.castIdem t).1 d hd
+      have hd' := hdesc d hd
+      have hfa : ctraitValidate E t v = fastAlone E d v := by
+        simp [ctraitValidate, ctraitValidateWith, hd]
+      rw [hfa] at h
+      rcases hshape with ha | ⟨ds, hds, hent, _⟩
+      · rw [hd'] at ha; simp [Desc.isAlt] at ha
+      · subst hds
+        simp only [fastAlone] at h
+        rw [fastComplex_first E ds v hent] at h
+        obtain ⟨pre, post, heq, _⟩ := (firstAccept_ok_iff _ w).mp h
+        have hmem : Res.ok w ∈ ds.map (altAlone E · v) := by rw [heq]; simp
+        obtain ⟨x, hx, hxw⟩ := List.mem_map.mp hmem
+        exact p1 hc _ v w x hd (by simpa [Desc.entries] using hx) hxw
+  · intro hc hp v w h
+    cases hsel : pySel E true alts v with
+    | traitError => exact p3' hc v w hsel h
+    | raised e => rw [hpy v, hsel] at h; simp at h
+    | ok x =>
+      rw [hpy v, hsel] at h
+      simp at h; subst h
+      exact lift v x (q3 (hsc ▸ hc) (hpc ▸ hp) v x hsel)
+
+
+theorem descOf_either_none (alts : List TraitType) (wn : Bool) (h : descOf E (.either alts wn) = none) :
+    wn = false ∧ flatFast E alts = [] := by
+  simp only [descOf] at h
+  cases hf : flatFast E alts ++ (if wn then [Desc.enum [Val.none]] else []) with
+  | nil =>
+    have := List.append_eq_nil_iff.mp hf
+    cases wn <;> simp_all
+  | cons x xs => simp [hf] at h
+
+theorem soundP_either (hE : EnvOK E) (alts : List TraitType) (wn : Bool) (hQ : SoundQ E alts) :
+    SoundP E (.either alts wn) :=
+  soundP_compound E hE alts wn (.either alts wn) hQ rfl rfl
+    (fun v => by
+      simp only [pyValidate]
+      cases pySel E true alts v <;> try rfl
+      all_goals (cases wn <;> simp)
+      all_goals (try (cases pyEnumValidate [Val.none] v <;> simp))
+      all_goals (try (cases pySel E false alts v <;> rfl)))
+    (fun d hd => descOf_either_eq E alts wn d hd)
+    (descOf_either_none E alts wn) rfl
+    (fun w => by simp [inDomain])
+    (fun v w => by simp [Conv])
+
+theorem soundP_compoundH (hE : EnvOK E) (hs : List TraitType) (hQ : SoundQ E hs) :
+    SoundP E (.compoundH hs) :=
+  soundP_compound E hE hs false (.compoundH hs) hQ rfl rfl
+    (fun v => by
+      simp only [pyValidate]
+      cases pySel E true hs v <;> try rfl
+      all_goals (try simp)
+      all_goals (try (cases pySel E false hs v <;> rfl)))
+    (fun d hd => by
+      simp only [descOf] at hd
+      cases hf : flatFast E hs with
+      | nil => simp [hf] at hd
+      | cons x xs =>
+        simp only [hf] at hd
+        simp only [Option.some.injEq] at hd
+        simp [← hd])
+    (fun h => by
+      simp only [descOf] at h
+      cases hf : flatFast E hs with
+      | nil => exact ⟨rfl, rfl⟩
+      | cons x xs => simp [hf] at h)
+    rfl
+    (fun w => by simp [inDomain])
+    (fun v w => by simp [Conv])
+
+/-- Soundness of validation for every trait type of the model. -/
+theorem soundP_all (hE : EnvOK E) : ∀ t, SoundP E t :=
+  TraitType.induct' (P := SoundP E) (Q := SoundQ E)
+    (fun t hs hn => soundP_atomic E hE t hs hn)
+    (fun t ih => soundP_noFast E t ih)
+    (fun t ts hs hQ => by
+      cases t <;> simp [TraitType.subs] at hs
+      case tuple items => subst hs; exact soundP_tuple E items hQ
+      case baseTuple items => subst hs; exact soundP_baseTuple E items hQ
+      case either alts wn => subst hs; exact soundP_either E hE alts wn hQ
+      case union alts => subst hs; exact soundP_union E alts hQ
+      case compoundH hs' => subst hs; exact soundP_compoundH E hE hs' hQ)
+    (soundQ_nil E) (soundQ_cons E)
 
 end TraitsVerif.Model.Val
